@@ -447,6 +447,18 @@ theorem notChain_recursion (g : Guards) (hd : g.depth = false) (env : Env) (e : 
     | succ k =>
       simp only [notChain, evalF, ih k (by omega)]
 
+/-- contexts of the witnesses / examples in Props -/
+def emptyEnv : Env := { vars := [] }
+def dEnv : Env := { vars := [("d", .dict [("k", .int 1)])] }
+def ctx1 : Env :=
+  { vars := [("x", .dict [("a", .list [.int 1, .int 2])]), ("s", .str "abc"), ("n", .int 5)] }
+
+/-- names that would make evaluation able to execute code or touch the outside world -/
+def dangerousNames : List String :=
+  ["eval", "exec", "compile", "__import__", "getattr", "setattr", "delattr", "globals", "locals", "vars",
+   "open", "input", "breakpoint", "os", "sys", "subprocess", "importlib", "builtins", "__builtins__",
+   "pickle", "marshal", "ctypes", "socket", "shutil", "pathlib"]
+
 /-! ### ast names of the operators (compared with the generated tables in Props) -/
 
 def CmpOp.astName : CmpOp → String
